@@ -58,6 +58,7 @@ Inductive label :=
 | Poll (t : nat)          (* poll sender task t *)
 | PollRx                  (* poll the receiver task: one poll_recv *)
 | DropSender (t : nat)    (* drop task t with its Sender handle and outstanding futures *)
+| CloseSender (t : nat)   (* Sender::close_this_sender (also Sink::poll_close) of a finished task *)
 | CloseRx                 (* Receiver::close *)
 | DropRx.                 (* drop the Receiver *)
 
@@ -175,6 +176,14 @@ Definition step (p : policy) (s : state) (l : label) : option (state * obs) :=
                 (upd (tasks s) t (mkTask [] [] false (woken tk))) (sent s) (recvd s),
               OAct (if fire then [WRecv] else []))
       else None
+  | CloseSender t =>
+      let tk := tasks s t in
+      if Nat.ltb t (ntasks s) && alive tk && finished tk then
+        (* self.weak = Weak::new(): the weak count drops, NOBODY is woken *)
+        Some (mkState (buf s) (cap s) (sw s) (rw s) (rx s) (rx_woken s) (rx_done s) (ntasks s)
+                (upd (tasks s) t (mkTask [] [] false (woken tk))) (sent s) (recvd s),
+              OAct [])
+      else None
   | CloseRx =>
       match rx s with
       | RxOpen =>
@@ -239,6 +248,24 @@ Definition stranded_b (s : state) : bool :=
   negb (rx_runnable s) &&
   existsb (fun t => waiting (tasks s t)) (seq 0 (ntasks s)) &&
   has_room s.
+
+(* the dual bad quiescent state: nothing is runnable, the receiver is parked, and there is
+   something it should be told (an item, or that every sender is gone) *)
+Definition all_dead (s : state) : bool :=
+  forallb (fun t => negb (alive (tasks s t))) (seq 0 (ntasks s)).
+
+Definition RxStranded (s : state) : Prop :=
+  (forall t, t < ntasks s -> runnable (tasks s t) = false) /\ rx_runnable s = false /\
+  rx s = RxOpen /\ rx_done s = false /\
+  (buf s <> [] \/ forall t, t < ntasks s -> alive (tasks s t) = false).
+
+Definition rx_stranded_b (s : state) : bool :=
+  forallb (fun t => negb (runnable (tasks s t))) (seq 0 (ntasks s)) &&
+  negb (rx_runnable s) && rxst_eqb (rx s) RxOpen && negb (rx_done s) &&
+  (match buf s with [] => false | _ => true end || all_dead s).
+
+Definition is_close_sender (l : label) : bool :=
+  match l with CloseSender _ => true | _ => false end.
 
 (* the class of programs for which NoStrand is proved: one outstanding send per task *)
 Definition single_prog (p : list (list item)) : bool :=
